@@ -225,7 +225,7 @@ def small_cases(max_n, chunk=4 ** 6):
 def big_cases(max_L, max_L_2d, max_color, max_n, seed, n_random):
     out = []
     for i, c in enumerate(domain.all_code_cases(max_L, max_L_2d, max_color,
-                                                max_n=max_n)):
+                                                max_n=max_n, thin=True)):
         if c['cls'] == 'Color666ToricCode' and c['size'][0] != c['size'][1]:
             continue
         out.append(dict(c, kind='big', rseed=seed * 100003 + i,
